@@ -116,6 +116,55 @@ def spec_le(a, b):
 # ------------------------------------------------------------------------------------------------
 
 
+def _prim(x):
+    """the primitive value a qualified object wraps (public accessor `get()`)"""
+    return x.get()
+
+
+def _bits(v):
+    """the Bit objects of a vector, least significant first (public iteration protocol), or [v] for a Bit"""
+    from cohdl import Bit
+    return [v] if isinstance(v, Bit) else list(iter(v))
+
+
+def _root_of(x):
+    """the root object a view refers to: by the anchored name `_root`, else by shape (the only attribute holding a
+    qualified object)"""
+    from cohdl import TypeQualifier
+    if hasattr(x, "_root"):
+        return x._root
+    c = [v for v in vars(x).values() if isinstance(v, TypeQualifier)]
+    if len(c) == 1:
+        return c[0]
+    raise InfraError(f"cannot identify the root reference of a view: {sorted(vars(x))}")
+
+
+def _refspec_of(x):
+    """the ref-spec list of a view: by the anchored name `_ref_spec`, else by shape (the only list attribute whose
+    entries have `simplify`)"""
+    if hasattr(x, "_ref_spec"):
+        return x._ref_spec
+    c = [v for v in vars(x).values() if isinstance(v, list) and v and all(hasattr(e, "simplify") for e in v)]
+    if len(c) <= 1:
+        return c[0] if c else []
+    raise InfraError(f"cannot identify the ref-spec of a view: {sorted(vars(x))}")
+
+
+def _raw_assign(obj, val):
+    """assignment to a primitive object that has no public assignment of its own (unqualified vectors, the value of a
+    Temporary): vectors through their same-kind cast setter (public; `u.unsigned = v` is `u._assign(v)`), Bit through
+    the assignment protocol `_assign`"""
+    from cohdl import Unsigned, Signed, Bit
+    if isinstance(obj, Bit):
+        obj._assign(val)
+    elif isinstance(obj, Unsigned):
+        obj.unsigned = val
+    elif isinstance(obj, Signed):
+        obj.signed = val
+    else:
+        obj.bitvector = val
+
+
 def _type_cache_of(f):
     """the class-level dictionary in which family `f` keeps its lazily created parametrised classes - found by
     shape, not by its (private, compiler-chosen) attribute name: the only own dict attribute of the class"""
@@ -132,10 +181,8 @@ def _hist_task(item):
     actions, model_line = item
     import_cohdl()
     from cohdl import Signal, Variable, Temporary, Port, BitVector, Unsigned, Signed, Bit, Array
-    from cohdl._core._boolean import _Boolean
-    from cohdl._core._integer import Integer
-    from cohdl._core._primitive_type import _PrimitiveType
-    from cohdl._core._type_qualifier import TypeQualifier, TypeQualifierBase
+    from cohdl import Boolean as _Boolean, Integer, TypeQualifier, TypeQualifierBase
+    _PrimitiveType = Bit.__bases__[0]
 
     D = Port.Direction
     DIR = {"in": D.INPUT, "out": D.OUTPUT, "inout": D.INOUT}
@@ -215,7 +262,7 @@ def _hist_task(item):
                         y = x[op[1]:op[2]]
                     else:
                         y = x[op[1]]
-                    records.append((vk[3], type(y._value)))
+                    records.append((vk[3], type(_prim(y))))
                     records.append((vk, type(y)))
                 except Exception:  # noqa: a legal view of a legal object cannot be constructed
                     records.append((vk[3], "reject"))
@@ -365,7 +412,7 @@ def _hist_task(item):
                     diffs.append(("isinstance", False, f"isinstance({pretty(k)}(), class {j}) disagrees with the model"))
     for k, c in port_checks:
         try:
-            ok = issubclass(c, Signal[c._Wrapped]) and isinstance(c(), Signal[c._Wrapped]) if k[3][0] == "v" else issubclass(c, Signal[c._Wrapped])
+            ok = issubclass(c, Signal[c.type]) and isinstance(c(), Signal[c.type]) if k[3][0] == "v" else issubclass(c, Signal[c.type])
         except Exception as ex:  # noqa
             ok = False
         if not ok:
@@ -598,13 +645,15 @@ def op_py(op):
     return "." + {"uns": "unsigned", "sgn": "signed", "bv": "bitvector"}[op[1]]
 
 
-def _mk_root(qual, d, vt, w):
+def _mk_root(qual, d, vt, w, init=None):
+    """a fresh qualified object; init = bits least significant first (passed to the constructor as a bit string)"""
     from cohdl import Signal, Variable, Temporary, Port, BitVector, Unsigned, Signed
     K = {"bv": BitVector, "uns": Unsigned, "sgn": Signed}[vt]
+    args = () if init is None else (init[::-1],)
     if qual == "port":
         D = Port.Direction
-        return Port[K[w], {"in": D.INPUT, "out": D.OUTPUT, "inout": D.INOUT}[d]]()
-    return {"signal": Signal, "variable": Variable, "temporary": Temporary}[qual][K[w]]()
+        return Port[K[w], {"in": D.INPUT, "out": D.OUTPUT, "inout": D.INOUT}[d]](*args)
+    return {"signal": Signal, "variable": Variable, "temporary": Temporary}[qual][K[w]](*args)
 
 
 def _apply_view(cur, op):
@@ -621,38 +670,34 @@ def _describe_view(root, cur, w):
     """canonical description of a view of `root`: kind, cells (positions of the shared Bit objects), the cells the
     simplified ref-spec denotes, root/qualifier checks"""
     from cohdl import Signal, Variable, Temporary, Port, BitVector, Unsigned, Signed, Bit
-    from cohdl._core._type_qualifier import Offset, Slice
-    pos = {id(b): i for i, b in enumerate(root._value._value._data)}
-    v = cur._value
-    if isinstance(v, Bit):
-        vt, bits = "bit", [v]
-    else:
-        vt = "uns" if isinstance(v, Unsigned) else "sgn" if isinstance(v, Signed) else "bv"
-        bits = list(v._value._data)
+    pos = {id(b): i for i, b in enumerate(_bits(_prim(root)))}
+    v = _prim(cur)
+    bits = _bits(v)
+    vt = "bit" if isinstance(v, Bit) else "uns" if isinstance(v, Unsigned) else "sgn" if isinstance(v, Signed) else "bv"
     cells = [pos.get(id(b), -1) for b in bits]
-    rs = cur._ref_spec
+    rs = _refspec_of(cur)
     if len(rs) == 0:
         resolved = list(range(w))
     else:
         last = rs[-1].copy()
         last.base_offset = list(last.base_offset)
         last.simplify()
-        if isinstance(last, Offset):
+        if hasattr(last, "offset"):          # Offset
             resolved = [last.offset] if not last.base_offset else [-2]
-        elif isinstance(last, Slice):
+        elif hasattr(last, "start") and hasattr(last, "stop"):      # Slice
             resolved = list(range(last.stop, last.start + 1)) if not last.base_offset else [-2]
         else:
             resolved = [-3]
         if len(rs) != 1:
             resolved = [-4] + resolved
     flags = []
-    if cur._root is not root:
+    if _root_of(cur) is not root:
         flags.append("root-changed")
     fam = Port if isinstance(root, Port) else Signal if isinstance(root, Signal) else Variable if isinstance(root, Variable) else Temporary
     if not isinstance(cur, fam) or (fam is not Port and isinstance(cur, Port)):
         flags.append("qualifier-changed")
     elif fam is Port:
-        if type(cur)._direction is not type(root)._direction or type(cur) is not Port[type(v), type(root)._direction]:
+        if type(cur).direction() is not type(root).direction() or type(cur) is not Port[type(v), type(root).direction()]:
             flags.append("qualifier-changed")
     elif type(cur) is not fam[type(v)]:
         flags.append("qualifier-changed")
@@ -678,25 +723,24 @@ def _write_task(item):
     qual, d, w, init, writes = item
     import_cohdl()
     from cohdl import BitVector, Bit, Signal, Variable
-    root = _mk_root(qual, d, "bv", w)
-    root._value._assign(BitVector[w](init[::-1]))
+    root = _mk_root(qual, d, "bv", w, init)
     status = []
     for ops, bits in writes:
         try:
             cur = root
             for op in ops:
                 cur = _apply_view(cur, op)
-            val = Bit(bits == "1") if isinstance(cur._value, Bit) and len(bits) == 1 else BitVector[len(bits)](bits[::-1])
+            val = Bit(bits == "1") if isinstance(_prim(cur), Bit) and len(bits) == 1 else BitVector[len(bits)](bits[::-1])
             if isinstance(cur, Signal):
                 cur.next = val
             elif isinstance(cur, Variable):
                 cur.value = val
             else:
-                cur._value._assign(val)
+                _raw_assign(_prim(cur), val)
             status.append("ok")
         except Exception:  # noqa
             status.append("reject")
-    return ",".join(status) + "|" + "".join(str(b) for b in root._value._value._data)
+    return ",".join(status) + "|" + "".join(str(b) for b in _bits(_prim(root)))
 
 
 def gen_ops(rng, w, length, p_bad=0.06):
@@ -1105,9 +1149,9 @@ def gen_session(rng):
     return (qual, d, vt, init, steps)
 
 
-def _mk_prim_root(vt, w):
+def _mk_prim_root(vt, w, init):
     from cohdl import BitVector, Unsigned, Signed
-    return {"bv": BitVector, "uns": Unsigned, "sgn": Signed}[vt][w]()
+    return {"bv": BitVector, "uns": Unsigned, "sgn": Signed}[vt][w](init[::-1])
 
 
 def _py_session(sess):
@@ -1115,22 +1159,21 @@ def _py_session(sess):
     property-level observations (a live view that does not show the root's cells, changed root / qualifier)"""
     qual, d, vt, init, steps = sess
     import_cohdl()
-    from cohdl import BitVector, Unsigned, Signed, Bit, Null, Full, Signal, Variable
+    from cohdl import BitVector, Unsigned, Signed, Bit, Null, Full, Signal, Variable, Temporary, Port
     KIND = {"bv": BitVector, "uns": Unsigned, "sgn": Signed}
     w = len(init)
     prim = qual == "prim"
-    root = _mk_prim_root(vt, w) if prim else _mk_root(qual, d, vt, w)
-    (root if prim else root._value)._assign(BitVector[w](init[::-1]))
+    root = _mk_prim_root(vt, w, init) if prim else _mk_root(qual, d, vt, w, init)
 
     def prim_of(x):
-        return x if prim else x._value
+        return x if prim else _prim(x)
 
     def shown(x):
         v = prim_of(x)
-        return str(v) if isinstance(v, Bit) else "".join(str(b) for b in v._value._data)
+        return "".join(str(b) for b in _bits(v))
 
     def root_bits():
-        return list(prim_of(root)._value._data)
+        return _bits(prim_of(root))
 
     live = [root]
     cells = [list(range(w))]
@@ -1156,13 +1199,15 @@ def _py_session(sess):
                     y = _apply_view(par, op)
                 pos = {id(b): i for i, b in enumerate(root_bits())}
                 v = prim_of(y)
-                bits = [v] if isinstance(v, Bit) else list(v._value._data)
+                bits = _bits(v)
                 live.append(y)
                 cells.append([pos.get(id(b), -1) for b in bits])
                 if not prim:
-                    if y._root is not root:
+                    if _root_of(y) is not root:
                         flags.append(f"step {n}: _root of the new view is not the root")
-                    if type(y)._Qualifier is not type(root)._Qualifier or (qual == "port" and type(y)._direction is not type(root)._direction):
+                    fam = {"signal": Signal, "variable": Variable, "temporary": Temporary, "port": Port}[qual]
+                    if not isinstance(y, fam) or (qual != "port" and isinstance(y, Port)) or (
+                            qual == "port" and type(y).direction() is not type(root).direction()):
                         flags.append(f"step {n}: qualifier of the new view differs from the root's")
             except Exception:  # noqa
                 live.append(None)
@@ -1204,7 +1249,7 @@ def _py_session(sess):
                     else:
                         tgt.bitvector = val
                 elif prim:
-                    tgt._assign(val)
+                    _raw_assign(tgt, val)
                 elif isinstance(tgt, Signal):
                     if n % 2:
                         tgt.next = val
@@ -1213,7 +1258,7 @@ def _py_session(sess):
                 elif isinstance(tgt, Variable):
                     tgt.value = val
                 else:
-                    tgt._value._assign(prim_of(val) if k == "view" else val)
+                    _raw_assign(_prim(tgt), prim_of(val) if k == "view" else val)
             except Exception:  # noqa
                 status = "reject"
         rb = "".join(str(b) for b in root_bits())
@@ -1405,7 +1450,7 @@ def _sibling_task(item):
     before = [_describe_view(root, v, w) for v in sibs]
     diffs = []
     for n in order:
-        for ref in sibs[n]._ref_spec:      # what `_format_ref` of the VHDL back end does when it prints this view
+        for ref in _refspec_of(sibs[n]):      # what `_format_ref` of the VHDL back end does when it prints this view
             ref.simplify()
         after = [_describe_view(root, v, w) for v in sibs]
         for i, (b, a) in enumerate(zip(before, after)):
